@@ -70,6 +70,9 @@ func runC05(w *World, r *Report) {
 	// the checkpoint persisted after a batch names its LAST pack, so reordering or skipping inside the batcher puts the
 	// checkpoint ahead of unacknowledged packs
 	r.importRules(runC14, "C05-", map[string]bool{"C14-R1": true, "C14-R2": true, "C14-R3": true, "C14-R5": true})
+	// resume loses nothing only if every live collection with a checkpoint is started again: incarnations are told
+	// apart by (database, name), not by name alone (C13-R4)
+	r.importRules(runC13, "C05-", map[string]bool{"C13-R4": true})
 	c12R4(w, r, "C05-R3")
 	c12DropMarksAll(w, r, "C05-R8")
 
